@@ -508,6 +508,14 @@ func c10PrefixBuckets(k backends.Kind, force bool) (ds []disc) {
 }
 
 func c10Replay(check string, raw json.RawMessage) ([]disc, error) {
+	if check == "uploads" {
+		var cs c10UpCase
+		if err := json.Unmarshal(raw, &cs); err != nil {
+			return nil, err
+		}
+		ds, _ := c10UploadsExec(cs)
+		return ds, nil
+	}
 	var cs c10Case
 	if err := json.Unmarshal(raw, &cs); err != nil {
 		return nil, err
@@ -531,7 +539,9 @@ func TestC10(t *testing.T) {
 		Rule: "cases = (backend, operation sequence with hostile keys); enumeration: every key of a hostile pool (dot segments, bucket-escaping paths, backslashes, percent-encoded bytes, 255/256-byte segments, internal names, path-prefixes of live keys, look-alikes) " +
 			"x every op kind {put, get, head, delete, multi-delete, copy to, copy from, multipart complete, form POST, list with prefix, Backend put/get/delete} x both buckets x every backend; random: rapid programs mixing hostile and normal keys; " +
 			"oracle = full-store snapshot (ListBuckets, Backend.ListBucket of every bucket, GET of every known key, on-disk tree with sentinel files for real directories) before and after each op: only the addressed (bucket,key) may differ; " +
-			"plus byte-distinct look-alike pairs on mem/bolt and probes of the backends' internal names; non-trivial = an op with a hostile key that the backend accepted, or a mutating op while both buckets hold objects; distinct by (backend, sequence)",
+			"plus byte-distinct look-alike pairs on mem/bolt and probes of the backends' internal names; " +
+			"plus multipart sequences (initiate, upload part, abort, complete, list parts over two buckets x two keys) in which requests quote the upload ID issued for another (bucket, key), against a model of every pending upload, the upload listings and the objects; " +
+			"non-trivial = an op with a hostile key that the backend accepted, or a mutating op while both buckets hold objects, or a multipart request quoting the ID of a pending upload of another (bucket, key); distinct by (backend, sequence)",
 		Replay: c10Replay,
 		Run:    c10Run,
 	})
@@ -659,6 +669,8 @@ func c10Run(t *testing.T, c *evid.Collector) {
 			}
 		}
 	}
+	// ---- upload IDs quoted to another (bucket, key)
+	c10UploadsRun(t, c, kinds)
 	c.Set("exhaustive_scope", fmt.Sprintf("%d hostile keys x %d op kinds x buckets x %d backends: complete (split over shards)", len(c10Hostile), len(c10OpKinds), len(kinds)))
 	c.Exhaustive(false)
 	// ---- random programs
